@@ -598,6 +598,12 @@ int main(int argc, char *argv[])
         add_history(line);
         command = line;
       }
+        else
+      if (in_code)
+      {
+        // A blank line ends an asm block.
+        command.clear();
+      }
 #if 0
         else
       {
@@ -610,18 +616,23 @@ int main(int argc, char *argv[])
     command.trim();
 
     String arg;
-    int space = command.find(' ');
 
-    if (space != -1)
+    // Lines of an asm block are code, not commands.
+    if (in_code == false)
     {
-      arg = command.value() + space;
-      arg.trim();
+      int space = command.find(' ');
 
-      command.replace_at(space, 0);
-      command.rtrim();
+      if (space != -1)
+      {
+        arg = command.value() + space;
+        arg.trim();
+
+        command.replace_at(space, 0);
+        command.rtrim();
+      }
+
+      if (is_command_valid(command, arg) == false) { continue; }
     }
-
-    if (is_command_valid(command, arg) == false) { continue; }
 
     bool has_arg = arg.len() != 0;
 
